@@ -420,6 +420,7 @@ Definition cmd_pop (lft : bool) (now : Z) (d : db) (args : list bytes) : res :=
       | Some None => (d, RNil)
       | Some (Some (l, exp)) =>
         let n := Z.to_nat (Z.min c (Zlen l)) in
+        if c =? 0 then (d, RArr []) else   (* nothing is taken: not a modification *)
         if lft then (put_list d k (skipn n l) exp, RArr (bulks (firstn n l)))
         else (put_list d k (firstn (length l - n) l) exp, RArr (bulks (firstn n (rev l))))
       end
